@@ -31,7 +31,22 @@ static void hold(const char *line, size_t n) {
     held_len = n;
 }
 
-int main(void) {
+/* playback mode (argv[1] == "playback"): Kani's concrete playback reads the values of the harness's `kani::any()`
+ * inputs from the trace of a failed property -- trace steps inside `kani::any_raw_*`.  The traces are kept, but
+ * every step that does not mention `any_raw` is dropped (a clean_up harness has traces of gigabytes, and the driver
+ * did not finish parsing them in 30 minutes). */
+static char *step = NULL;
+static size_t step_len = 0, step_cap = 0;
+static int step_keep = 0, steps_out = 0;
+static void step_add(const char *line, size_t n) {
+    if (step_len + n + 1 > step_cap) { step_cap = 2 * (step_len + n + 1); step = realloc(step, step_cap); if (!step) exit(1); }
+    memcpy(step + step_len, line, n);
+    step_len += n;
+}
+
+int main(int argc, char **argv) {
+    int playback = argc > 1 && strcmp(argv[1], "playback") == 0;
+    int in_step = 0;
     char *line = NULL;
     size_t lcap = 0;
     ssize_t n;
@@ -57,11 +72,40 @@ int main(void) {
             if (strcmp(line, "  },\n") == 0 || strcmp(line, "  }\n") == 0) st = OUT;
             break;
         case PASS:
-            if (strcmp(line, "        \"trace\": [\n") == 0) { st = TRACE; break; }
+            if (strcmp(line, "        \"trace\": [\n") == 0) {
+                if (playback) { hold(line, (size_t)n); flush_held(); steps_out = 0; in_step = 0; }
+                st = TRACE;
+                break;
+            }
             hold(line, (size_t)n);
             if (strcmp(line, "  },\n") == 0 || strcmp(line, "  }\n") == 0) { flush_held(); fflush(stdout); st = OUT; }
             break;
         case TRACE:
+            if (playback) {
+                /* steps are objects at 10 spaces of indentation */
+                if (!in_step && strcmp(line, "          {\n") == 0) { in_step = 1; step_len = 0; step_keep = 0; step_add(line, (size_t)n); break; }
+                if (in_step) {
+                    if (strcmp(line, "          },\n") == 0 || strcmp(line, "          }\n") == 0) {
+                        if (step_keep) {
+                            if (steps_out) fputs(",\n", stdout);
+                            fwrite(step, 1, step_len, stdout);
+                            fputs("          }", stdout);
+                            steps_out++;
+                        }
+                        in_step = 0;
+                    } else {
+                        step_add(line, (size_t)n);
+                        if (!step_keep && strstr(line, "any_raw")) step_keep = 1;
+                    }
+                    break;
+                }
+                if (strcmp(line, "        ],\n") == 0 || strcmp(line, "        ]\n") == 0) {
+                    if (steps_out) fputs("\n", stdout);
+                    fwrite(line, 1, (size_t)n, stdout);
+                    st = PASS;
+                }
+                break;
+            }
             if (strcmp(line, "        ],\n") == 0) st = PASS;
             else if (strcmp(line, "        ]\n") == 0) {
                 /* the trace was the last member: drop the comma that ended the previous member */
